@@ -402,8 +402,22 @@ static int i_udict_mgr_control(struct udict_mgr *mgr, int cmd, va_list args)
 static bool (*o_umem_alloc)(struct umem_mgr *, struct umem *, size_t);
 static bool (*o_umem_realloc)(struct umem *, size_t);
 static void (*o_umem_free)(struct umem *);
+/* fault injection: the n-th umem allocation / the n-th malloc from now on is refused (commands failmem,
+ * failmalloc; 0 disarms) */
+static int fail_mem_cd, fail_malloc_cd;
+void *__real_malloc(size_t n);
+void *__wrap_malloc(size_t n)
+{
+    if (fail_malloc_cd > 0 && --fail_malloc_cd == 0)
+        return NULL;
+    return __real_malloc(n);
+}
 static bool i_umem_alloc(struct umem_mgr *mgr, struct umem *umem, size_t size)
 {
+    if (fail_mem_cd > 0 && --fail_mem_cd == 0) {
+        printf("refused mem\n");
+        return false;
+    }
     bool ok = o_umem_alloc(mgr, umem, size);
     if (ok) {
         if (tab_id(&t_mem, umem) >= 0) {
@@ -749,6 +763,17 @@ bool pd_ext_c(int nt, char **tok)
         if (v == NULL) { ret(-1); return true; }
         urequest_clean(&v->req);
         v->used = false;
+        ret(0);
+        return true;
+    }
+    if (!strcmp(c, "failoff")) {
+        fail_mem_cd = fail_malloc_cd = 0;
+        ret(0);
+        return true;
+    }
+    if ((!strcmp(c, "failmem") || !strcmp(c, "failmalloc")) && nt >= 2) {
+        if (c[4] == 'm' && c[5] == 'e') fail_mem_cd = atoi(tok[1]);
+        else fail_malloc_cd = atoi(tok[1]);
         ret(0);
         return true;
     }
